@@ -50,7 +50,7 @@ SPEC = dict(
     assumptions=['sanitizer instrumentation observes every out-of-bounds access, use after free and double free that leaves the exactly sized heap block or a live SDK object',
                  'all SDK allocations go through KSI_malloc/KSI_calloc/KSI_free (allocation funnel)',
                  'the predefined policies are the 7 exported KSI_VERIFICATION_POLICY_* objects'],
-    deadline=dict(quick=300, thorough=2400),
+    deadline=dict(quick=300, thorough=4000),
     # check.py's sanitizer options with a smaller quarantine (16 shards x exactly sized 64 KB blocks otherwise hold 256 MB each)
     env=dict(ASAN_OPTIONS='detect_leaks=0:abort_on_error=0:allocator_may_return_null=1:handle_abort=1:symbolize=1:detect_stack_use_after_return=0:malloc_context_size=12:quarantine_size_mb=64'),
 )
